@@ -1,11 +1,12 @@
 SPECIFICATION Spec
 CONSTANTS
   MaxNodes = 3
-  WriteEps = {"msgpack", "lp_v1", "lp_v2", "lp_simple", "tle"}
-  QueryEps = {"query", "query_msgpack", "estimate", "arrow"}
+  WriteEps = {"msgpack"}
+  QueryEps = {"query"}
   NoPrologue = {}
   Emit = FALSE
   Retries = 2
   RetrySwitchesPeer = TRUE
+  RemembersPrimary = FALSE
 INVARIANTS TypeOK Safety
 CHECK_DEADLOCK FALSE
